@@ -79,10 +79,11 @@ def make_case(rng):
     for p in range(npat):
         loc = rng.random() < 0.5
         pulse = rng.random() < 0.7
+        lpulse = pulse if rng.random() < 0.5 else (rng.random() < 0.5)      # launch and capture calls may differ in having a clock pulse
         pat = {'state': {f.name: rng.choice([ZERO, ONE, ONE, ZERO, X]) for f in ffs},
                'unload': {f.name: rng.choice([ZERO, ONE, X]) for f in ffs},
                'pi': {n.name: rng.choice([ZERO, ONE, U]) for n in ports_in}, 'po': {n.name: rng.choice([ZERO, ONE, X]) for n in ports_out},
-               'loc': loc, 'pulse': pulse}
+               'loc': loc, 'pulse': pulse, 'lpulse': lpulse}
         pats.append(pat)
     return c, chains, pi_group, po_group, pats, ffs, clk
 
@@ -151,7 +152,7 @@ def render(c, chains, pi_group, po_group, pats, clk, rng):
         t.append(f'   "pattern {i}": Call "load_unload" {{ ' + ' '.join(params) + ' }')
         po = ''.join(CH_PO[pat['po'][n.name]] for n in po_group)
         if pat['loc']:
-            t.append(f'   Call "allclock_launch" {{ "_pi"={pi_str(pat, pat["pulse"])}; }}')
+            t.append(f'   Call "allclock_launch" {{ "_pi"={pi_str(pat, pat["lpulse"])}; }}')
             t.append(f'   Call "allclock_capture" {{ "_pi"={pi_str(pat, pat["pulse"])}; "_po"={po}; }}')
         else:
             t.append(f'   Call "multiclock_capture" {{ "_pi"={pi_str(pat, pat["pulse"])}; "_po"={po}; }}')
@@ -231,7 +232,7 @@ def check(c, chains, pi_group, po_group, pats, ffs, clk, text):
             cap = evaln.evalN(c, assign, 4)
             for f in ffs:
                 nxt = A.code_of(cap[pos[f.name]]) & 3 if pos[f.name] in cap else ZERO
-                launch_pulse = pat['loc'] and pat['pulse']
+                launch_pulse = pat['loc'] and pat['lpulse'] and pat['pulse']      # "no launch cycle or no launch clock: the loaded state stays"
                 fin = nxt if launch_pulse else pat['state'][f.name]
                 want = transition(pat['state'][f.name], fin)
                 if int(tl[pos[f.name], p]) != want:
@@ -253,7 +254,7 @@ def run_case(args):
 def part(tier, seed):
     b = BoundedPart('C18-stil-round-trip', ['kyupy.stil.parse', 'kyupy.stil.StilFile.__init__/_maps/tests/tests_loc/responses', 'kyupy.logic.mv_transition'],
                     'seeded scan circuits (1-7 scan flip-flops in 1-3 chains of random order, 0-3 inversion markers at random places incl. chain ends, shuffled ports and '
-                    'signal groups) x pattern sets (1-4 patterns; loads over 0/1/X, unloads over L/H/X, PI over 0/1/N, PO over L/H/X; static capture or launch+capture calls with '
+                    'signal groups) x pattern sets (1-4 patterns; loads over 0/1/X, unloads over L/H/X, PI over 0/1/N, PO over L/H/X; static capture or launch+capture calls, each independently with '
                     'and without clock pulses): tests() / responses() equal the intended value at every flip-flop (chain order: first shifted bit = cell nearest scan-out; '
                     'inversions between scan-in resp. scan-out and the cell) and port (signal-group order), rows in port/state order; tests_loc() combines loaded and next state; '
                     'distinct = case seed; non-trivial = some chain has a marker', f'{150 if tier == "quick" else 3000} cases')
